@@ -99,34 +99,45 @@ def tidyDoc (d : String) : String :=
 
 def googleOpt : String := ", optional"
 
-def setNameAndType (env : Env) (inferType : Bool) (kv : String × Param) : Except String (String × Param) := do
-  let (name, p) := kv
-  let wasNone := match p.default with | some (.val d) => d.inNoneTypes | _ => false
-  let p := match p.doc with
-    | some d =>
-      let (d', dflt) := env.extractDefault true d
-      mergePresent { doc := some d', default := dflt.map .val } p
-    | none => p
-  if endsWith name "kwargs" || startsWith name "*" then .error "unsupported: *args / **kwargs"
-  let p ← if p.default.isSome then inferDefault inferType p else pure p
-  let p := match p.typ with
-    | some t => if endsWith t googleOpt then
-        { p with typ := some ("Optional[" ++ String.ofList (t.toList.take (t.toList.length - googleOpt.toList.length)) ++ "]") } else p
-    | none => p
-  let p := if p.doc == some "" then { p with doc := none } else p
+/-- first step: `merge_present_params(target=_param, other=dict(zip(("doc", "default"), extract_default(_param["doc"]))))` -/
+def sntMerge (env : Env) (p : Param) : Param :=
   match p.doc with
-  | none => pure (name, p)
+  | some d => mergePresent { doc := some (env.extractDefault true d).1, default := (env.extractDefault true d).2.map .val } p
+  | none => p
+
+/-- Google's `, optional` suffix of a type -/
+def sntGoogle (p : Param) : Param :=
+  match p.typ with
+  | some t => if endsWith t googleOpt then
+      { p with typ := some ("Optional[" ++ String.ofList (t.toList.take (t.toList.length - googleOpt.toList.length)) ++ "]") } else p
+  | none => p
+
+/-- `if "doc" in _param and not _param["doc"]: del _param["doc"]` -/
+def sntDropEmptyDoc (p : Param) : Param := if p.doc == some "" then { p with doc := none } else p
+
+/-- `__set_name_and_type_handle_doc_in_param` -/
+def sntDoc (env : Env) (name : String) (wasNone : Bool) (p : Param) : Param :=
+  match p.doc with
+  | none => p
   | some d =>
     let d := tidyDoc d
     let p := { p with doc := some d }
-    let p := match env.adhocTyp d name (match p.default with | some dv => dv.isNoneStr | none => false) with
+    let p := match env.adhocTyp d name (isNoneStrD p.default) with
       | some t => { p with typ := some t }
       | none => p
     if startsWith d "(Optional)" || startsWith d "Optional" || wasNone then
       match p.typ with
-      | some t => pure (name, if startsWith t "Optional[" then p else { p with typ := some ("Optional[" ++ t ++ "]") })
-      | none => pure (name, p)
-    else pure (name, p)
+      | some t => if startsWith t "Optional[" then p else { p with typ := some ("Optional[" ++ t ++ "]") }
+      | none => p
+    else p
+
+def setNameAndType (env : Env) (inferType : Bool) (kv : String × Param) : Except String (String × Param) := do
+  let (name, p) := kv
+  let wasNone := match p.default with | some (.val d) => d.inNoneTypes | _ => false
+  let p := sntMerge env p
+  if endsWith name "kwargs" || startsWith name "*" then .error "unsupported: *args / **kwargs"
+  let p ← if p.default.isSome then inferDefault inferType p else pure p
+  pure (name, sntDoc env name wasNone (sntDropEmptyDoc (sntGoogle p)))
 
 /-! ## class / pydantic -/
 
